@@ -178,7 +178,7 @@ _ORIGIN_TRUST = [
     'BTreeSet::{is_superset, extend}, the set of items of a Range / slice iterator (specs/origin_body.rs verif_sets), derived Default/Clone of Origin: assumed',
     'Origin::union (iterator adaptor code): assumed contract on the real signature',
 ]
-_LOADB = {'template': 'loadb.rs', 'rlimit': 30, 'items': [r'^token::builder::authorizer::(load_and_translate_block|AuthorizerBuilder::build_inner)$']}
+_LOADB = {'template': 'loadb.rs', 'rlimit': 30, 'items': [r'^token::builder::authorizer::(load_and_translate_block|AuthorizerBuilder::build_inner)$', r'^token::authorizer::snapshot::Authorizer::from_snapshot$']}
 _LOADB_PROVED = (' Loading a block into the authorizer (load_and_translate_block, for every block, index, key map and every outcome of the symbol-table conversion oracles): every fact of block i is stored under origin '
                  'exactly {i} and nothing else is added to the fact store; every rule of block i is stored as owned by block i with the trusted set of ITS OWN scopes over the default trust of the block '
                  '(the block scopes over {authority, authorizer}, current block i), and nothing else is added to the rule store; existing facts and rules are kept; the key -> block map is not modified; '
@@ -186,7 +186,10 @@ _LOADB_PROVED = (' Loading a block into the authorizer (load_and_translate_block
                  'Building the authorizer (AuthorizerBuilder::build_inner): the key -> block map registers block j (1-based) under key index k exactly when container block j-1 carries an external signature by the k-th distinct '
                  'external key of the token (first-occurrence order = index in the fresh key table), the token-level trusted set is `previous` evaluated at block_count, blocks is Some with one entry per container block plus the '
                  'authority (None without a token), every authorizer fact is stored under origin {authorizer} and every authorizer rule as owned by the authorizer with the trusted set of its own scopes over the authorizer scopes; '
-                 'the result has no cached execution time, a zero iteration counter and the builder\'s limits and policies.')
+                 'the result has no cached execution time, a zero iteration counter and the builder\'s limits and policies. '
+                 'Restoring a snapshot (Authorizer::from_snapshot, untrusted bytes): blocks is Some only with at least one block (the decision procedure indexes the authority block); block j is registered in the key -> block map '
+                 'exactly when it carries an external key (under some key index), and nothing else is; the token-level trusted set is `previous` at the number of blocks; the version is in the supported range; the limits, the iteration counter '
+                 'and the execution time (Some iff non-zero) are the ones of the snapshot.')
 _LOADB_ASSUME = ['unit loadb: FactSet::insert / RuleSet::insert add exactly the given (origin, fact) / (block, trusted set, rule) entry; conversions between symbol tables are functions of (object, source table) - interning in the target table is not modelled; Rule::validate_variables returns',
                  'unit loadb / build_inner: the statement `blocks = Some(token.blocks().enumerate().map(.. load_and_translate_block ..).collect()?)` is an oracle (rule A5): one decoded block per container block plus the authority, key map only read, '
                  'nothing stored under the authorizer origin; PublicKeys::insert returns the index of the first equal key and appends when absent; HashMap entry().or_default().push() appends to the list under the key; Biscuit::block_count = 1 + container blocks (token invariant rep(), unit token)']
@@ -272,7 +275,7 @@ PROPS['C10'] = {
               '(its round is abstracted: any facts, any error, rule A1); the counter accumulates across calls (iterations += rounds). Authorizer::run is cached after success; authorize computes '
               'remaining = configured - consumed without underflow, returns Timeout when the cached execution time already reaches max_time, and TooManyIterations when the counter exceeds the budget.',
     'not_covered': ['wall-clock promptness inside one expensive iteration (time is an uninterpreted input: what is decided is WHERE the clock is read, not how long a step takes)', 'query_with_limits / query_all_with_limits themselves (assumed to return); query / query_all are under contract (remaining budget without underflow, Timeout when the cached time reaches the budget)',
-                    'Authorizer::from_snapshot establishing the sane() precondition (iterator code)', 'what one round of rule application computes (C05)'],
+                     'what one round of rule application computes (C05)'],
     'assumptions': ['FactSet::len is the number of facts and merge never removes one; Instant / Duration modelled as nanosecond counters whose + and -= panic on overflow / underflow (specs/limits_body.rs)',
                     'Authorizer::authorize_inner leaves the counters alone (assumed contract)', 'requires sane(): iterations + max_iterations < u64::MAX before the first run and max_time below half the Duration range'],
 }
@@ -287,7 +290,9 @@ PROPS['C09']['units'].append({'template': 'expr.rs', 'rlimit': 30, 'items': [r'^
 PROPS['C09']['units'].append({'template': 'convops.rs', 'rlimit': 30, 'items': [r'^format::convert::v2::proto_op_to_token_op$'], 'exclude_obligations': _NOT_PANIC, 'quick_canaries': []})
 PROPS['C09']['units'].append({'template': 'convterm.rs', 'rlimit': 30, 'items': [r'^format::convert::v2::proto_id_to_token_term$'], 'exclude_obligations': _NOT_PANIC, 'quick_canaries': []})
 PROPS['C09']['units'].append({'template': 'srcconv.rs', 'rlimit': 30, 'items': [r'^token::builder::scope::']})
-PROPS['C09']['units'].append({'template': 'loadb.rs', 'rlimit': 30, 'items': _LOADB['items'], 'exclude_obligations': _NOT_PANIC, 'quick_canaries': []})
+PROPS['C09']['units'].append({'template': 'loadb.rs', 'rlimit': 30, 'items': _LOADB['items'],
+                              # the two clauses that guard the indexing of blocks[0] in authorize_inner DO count for panic-freedom
+                              'exclude_obligations': [r'::ensures\.(?!blocks)', r'::loop\d+\.', r'::closure\d+\.'], 'quick_canaries': ['snapshot-empty-blocks-some']})
 PROPS['C09']['units'].append({'template': 'authz.rs', 'rlimit': 60, 'items': [r'^token::authorizer::Authorizer::(authorize_inner|query_inner|query_all_inner)$'], 'exclude_obligations': _NOT_PANIC, 'quick_canaries': []})
 PROPS['C09']['proved'] += (' Also: Unary / Binary::evaluate (scalar arms), Binary::evaluate_with_closure, Expression::evaluate, Expression::print and the builder-level Display of an expression (Authorizer::dump_code) for every operation sequence (no pop / remove / index / division side condition can fail); '
                            'load_and_translate_block and AuthorizerBuilder::build_inner (index arithmetic, casts); Authorizer::authorize_inner, query_inner, query_all_inner (block indexing; needs blocks to hold the authority block, '
